@@ -84,7 +84,7 @@ func (o *outcome) note(k string) {
 }
 
 // serverFixture builds the tree and binds the fids the canonical frames use.
-func serverFixture(msize uint32) (*memfs.FS, *sess.Sess, int) {
+func serverFixture(msize, first uint32) (*memfs.FS, *sess.Sess, int) {
 	fs := memfs.New()
 	f := fs.AddFile("d/f", []byte("0123456789abcdef"))
 	f.Xattrs["user.k"] = []byte("value")
@@ -97,6 +97,10 @@ func serverFixture(msize uint32) (*memfs.FS, *sess.Sess, int) {
 	steps := 0
 	do := func(m refcodec.Msg) {
 		s.OK(m)
+		steps++
+	}
+	if first != 0 {
+		s.Version(first)
 		steps++
 	}
 	if msize != 0 {
@@ -352,7 +356,7 @@ func runServer(c *tcase) *outcome {
 	lim := c.limit()
 	vs := classifyStream(c.stream, limits{lim, lim}, true)
 
-	fs, s, steps := serverFixture(c.Msize)
+	fs, s, steps := serverFixture(c.Msize, c.First)
 	o.steps += int64(steps)
 	base := len(fs.Calls)
 	fedBefore := len(s.CC.W.Written) // everything sent so far has been answered, hence consumed
@@ -565,6 +569,9 @@ func checkSentinel(o *outcome, c *tcase, r *reply, fs *memfs.FS, trig string) {
 }
 
 func negName(c *tcase) string {
+	if c.Neg && c.First != 0 {
+		return fmt.Sprintf("msize%d-then-%d", c.First, c.Msize)
+	}
 	if c.Neg {
 		return fmt.Sprintf("msize%d", c.Msize)
 	}
